@@ -18,7 +18,10 @@ and its reflected syntax is walked: `.bound` never meets `.inputs` at any node, 
 `__BOUND` marker, `.inputs` = the user-level free names.  The binder pattern (base names, sharing) is compared
 with the Lean model of `reflect`/`_alpha_mangle` (counted as model fidelity, not gated).
 
-Streams:  clean (above; never applies the optimizer to sibling-shared binders) · extras (MarkovProduct,
+Streams:  clean (above; never applies the optimizer to sibling-shared binders) · fusion (bodies kept lazy by free
+real-array inputs z[a]·y[b]; 2-3 nested Reduce/Contraction levels that eager/normalize/apply_optimizer FUSE into one
+binder over a mixed bound set; then a substitution whose value's free name collides with a binder's user name; the
+rewritten, still lazy term is walked: every binder marked, none among the inputs; also under apply_optimizer) · extras (MarkovProduct,
 Integrate, Scatter, Approximate against renaming invariance / Python oracles) · dedicated stream for the open
 finding KF-shared-binder-unfold.
 """
@@ -43,6 +46,9 @@ POOL = ["i", "j", "k"]
 RPOOL = ["x", "y"]
 MARK = "__BOUND"
 MODES = ["eager", "lazy", "reflect", "normalize"]
+MODES_OPT = MODES + ["optimize"]     # + apply_optimizer: only where no two sibling binders are shared
+# real-array variables z, y : Reals[n] keep a term lazy under eager; bound to these sample points at the end
+RVALS = {"z": (1, 2, 3), "y": (2, 3, 1)}
 OPS = {"add": ops.add, "mul": ops.mul, "max": ops.max, "min": ops.min, "sub": ops.sub}
 DECLINE = (NotImplementedError, AssertionError, ValueError, TypeError, KeyError, IndexError, AttributeError)
 
@@ -102,6 +108,9 @@ class Gen:
         rng = self.rng
         if depth <= 0:
             if kind == "real":
+                if rng.random() < 0.12:
+                    # a factor z[a] with z a free real-array input keeps the surrounding term lazy under eager
+                    return ("binary", "mul", self.leaf("real"), ("rget", rng.choice(sorted(RVALS)), rng.choice(POOL)))
                 return self.leaf("real")
             return self.bint_atom()
         # sibling duplication: reuse an earlier sub-recipe (same objects -> hash-consed, shared binders)
@@ -204,7 +213,7 @@ class Gen:
 
 def kind_of(r):
     t = r[0]
-    if t in ("leaf", "binary", "contr", "indep"):
+    if t in ("leaf", "binary", "contr", "indep", "rget"):
         return "real"
     if t in ("bleaf", "bvar", "bnum"):
         return "bint"
@@ -226,6 +235,8 @@ def free(r):
         return set(r[2])
     if t == "bvar":
         return {r[1]}
+    if t == "rget":
+        return {r[2]}
     if t in ("bnum", "bnum2"):
         return set()
     if t == "binary":
@@ -250,7 +261,18 @@ def has_indep(r):
                                   and x[0] in TAGS)
 
 
-TAGS = {"leaf", "bleaf", "bleaf2", "bvar", "bnum", "bnum2", "binary", "reduce", "lamget", "contr", "subs", "cat", "indep"}
+def real_names(r):
+    """user-level free real-valued inputs"""
+    out = set()
+    for s_ in subrecipes(r):
+        if s_[0] == "rget":
+            out.add(s_[1])
+        elif s_[0] == "indep":
+            out.add("x")
+    return out
+
+
+TAGS = {"rget", "leaf", "bleaf", "bleaf2", "bvar", "bnum", "bnum2", "binary", "reduce", "lamget", "contr", "subs", "cat", "indep"}
 
 
 def subrecipes(r):
@@ -314,6 +336,8 @@ def build(r, n, cache=None):
         return Tensor(data, OrderedDict((x, Bint[n]) for x in r[2]), dtype)
     if t == "bvar":
         return Variable(r[1], Bint[n])
+    if t == "rget":
+        return Variable(r[1], Reals[n])[r[2]]
     if t == "bnum":
         return Number(r[1], n)
     if t == "bnum2":
@@ -355,6 +379,8 @@ def wire(r, n):
         return ["tensor", [[Q(x), n] for x in r[2]], ["bint", 2 * n], list(r[3])]
     if t == "bvar":
         return ["var", Q(r[1]), B]
+    if t == "rget":
+        return ["binary", ["getitem", ["offset", 0]], ["var", Q(r[1]), ["real", n]], ["var", Q(r[2]), B]]
     if t == "bnum":
         return ["num", r[1], n]
     if t == "bnum2":
@@ -386,6 +412,8 @@ def pyof(r, n, names=None):
                 + f"]), {dtype})")
     if t == "bvar":
         return f"Variable({r[1]!r}, Bint[{n}])"
+    if t == "rget":
+        return f"Variable({r[1]!r}, Reals[{n}])[{r[2]!r}]"
     if t == "bnum":
         return f"Number({r[1]}, {n})"
     if t == "bnum2":
@@ -437,10 +465,15 @@ def py_program(r, n, mode, xval):
     ex = pyof(r, n)
     if mode == "eager":
         lines.append(f"r = {ex}")
+    elif mode == "optimize":
+        lines.append(f"from funsor.optimizer import apply_optimizer\nwith lazy:\n    t = {ex}\nr = apply_optimizer(t)")
     else:
         lines.append(f"with {mode}:\n    t = {ex}\nr = reinterpret(t)")
+    lines.append("print(r, dict(r.inputs))  # before binding the real inputs")
     if xval is not None:
         lines.append(f"r = r(x=Tensor(np.array({list(xval)}, dtype=np.float64))) if 'x' in r.inputs else r")
+    for zn in sorted(real_names(r) - {"x"}):
+        lines.append(f"r = r({zn}=Tensor(np.array({list(RVALS[zn][:n])}, dtype=np.float64))) if {zn!r} in r.inputs else r")
     lines.append("print(r, r.inputs)")
     return "\n".join(lines) + "\n"
 
@@ -455,6 +488,8 @@ def pyeval(r, env, n, xval=None):
         return r[3][idx]
     if t == "bvar":
         return env[r[1]]
+    if t == "rget":
+        return RVALS[r[1]][env[r[2]]]
     if t in ("bnum", "bnum2"):
         return r[1]
     if t == "binary":
@@ -514,6 +549,8 @@ def rename_binders(r, counter=None, m=None):
         return (t, r[1], tuple(nm(x) for x in r[2]), r[3])
     if t == "bvar":
         return ("bvar", nm(r[1]))
+    if t == "rget":
+        return ("rget", r[1], nm(r[2]))
     if t in ("bnum", "bnum2"):
         return r
     if t == "binary":
@@ -555,24 +592,37 @@ def describe(r):
 # running the implementation
 # ------------------------------------------------------------------------------------------------
 
-def run_mode(r, n, mode, xval):
-    """-> ("value", funsor) | ("declined", reason)"""
+def run_mode_full(r, n, mode, xval):
+    """-> ("value", funsor, funsor before the real inputs were bound) | ("declined", reason, None)"""
     try:
         cache = {}
         if mode == "eager":
             res = build(r, n, cache)
+        elif mode == "optimize":
+            with lazy:
+                t = build(r, n, cache)
+            res = apply_optimizer(t)
         else:
             interp = {"lazy": lazy, "reflect": reflect, "normalize": normalize}[mode]
             with interp:
                 t = build(r, n, cache)
             res = reinterpret(t)
+        pre = res
         if xval is not None and "x" in res.inputs:
             res = res(x=Tensor(np.array(xval, dtype=np.float64)))
+        for zn, zv in RVALS.items():
+            if zn in res.inputs:
+                res = res(**{zn: Tensor(np.array(zv[:n], dtype=np.float64))})
     except DECLINE as e:
-        return ("declined", f"{type(e).__name__}")
+        return ("declined", f"{type(e).__name__}", None)
     except RecursionError:
-        return ("declined", "RecursionError")
-    return ("value", res)
+        return ("declined", "RecursionError", None)
+    return ("value", res, pre)
+
+
+def run_mode(r, n, mode, xval):
+    """-> ("value", funsor) | ("declined", reason)"""
+    return run_mode_full(r, n, mode, xval)[:2]
 
 
 def syntax(r, n):
@@ -600,8 +650,8 @@ def walk(f, seen=None):
             yield from walk(k, seen)
 
 
-def check_names(syn, user_free, real_free):
-    """-> None | (kind, detail)  — the name clauses of the property on reflected syntax"""
+def check_names(syn, user_free, real_free, exact_inputs=True):
+    """-> None | (kind, detail)  — the name clauses of the property on a (reflected or rewritten) term"""
     for node in walk(syn):
         common = set(node.bound) & set(node.inputs)
         if common:
@@ -612,7 +662,8 @@ def check_names(syn, user_free, real_free):
     ins = set(syn.inputs)
     if any(MARK in x for x in ins):
         return ("leaked-bound-name", f"inputs {sorted(ins)}")
-    if ins != set(user_free) | set(real_free):
+    want = set(user_free) | set(real_free)
+    if (ins != want) if exact_inputs else not (ins <= want):
         return ("inputs-differ", f"inputs {sorted(ins)} expected {sorted(set(user_free) | set(real_free))}")
     return None
 
@@ -652,6 +703,8 @@ def tables_same(a, b):
 
 def lean_request(r, ins, n, xval):
     env = [[Q("x"), ["arr", [n], list(xval)]]] if xval is not None else []
+    for zn in sorted(real_names(r) - {"x"}):
+        env.append([Q(zn), ["arr", [n], list(RVALS[zn][:n])]])
     return f"C05 denote {sx(wire(r, n))} {sx([[Q(x), n] for x in ins])} {sx(env)}"
 
 
@@ -685,13 +738,18 @@ def gen_case(rng, tier):
     return n, r, xval
 
 
-def failing_modes(r, n, xval, oracle_tab, ins):
+def failing_modes(r, n, xval, oracle_tab, ins, modes=MODES):
     """modes whose value differs from the oracle table (python-side; used by shrink/search/replay)"""
     bad = []
-    for mode in MODES:
-        st, val = run_mode(r, n, mode, xval)
+    for mode in modes:
+        st, val, pre = run_mode_full(r, n, mode, xval)
         if st != "value":
             continue
+        if isinstance(pre, Funsor) and not isinstance(pre, (Tensor, Number)):
+            nm = check_names(pre, free(r), real_names(r), exact_inputs=False)
+            if nm:
+                bad.append((mode, f"{nm[0]}: {nm[1]}"))
+                continue
         extra = set(val.inputs) - set(ins)
         if extra:
             bad.append((mode, f"foreign inputs {sorted(extra)}"))
@@ -704,7 +762,7 @@ def failing_modes(r, n, xval, oracle_tab, ins):
     return bad
 
 
-def fails_py(r, n, xval):
+def fails_py(r, n, xval, modes=MODES):
     """python-side oracle: does any exact interpretation return a value different from `pyeval`,
     or leak / fail the name clauses?"""
     try:
@@ -714,14 +772,14 @@ def fails_py(r, n, xval):
         orc = py_table(r, ins, n, xval)
     except Exception:
         return None
-    bad = failing_modes(r, n, xval, orc, ins)
+    bad = failing_modes(r, n, xval, orc, ins, modes)
     if bad:
         return ("value", bad[0][0], orc, bad[0][1])
     try:
         syn = syntax(r, n)
     except DECLINE + (RecursionError,):
         return None
-    nm = check_names(syn, free(r), {"x"} if has_indep(r) else set())
+    nm = check_names(syn, free(r), real_names(r))
     if nm:
         return ("names", nm[0], None, nm[1])
     return None
@@ -767,17 +825,17 @@ def shrink(r, n, xval, still_fails, budget=150):
     return cur, xval
 
 
-def report_value(ctx, name, r, n, xval, mode, expected, got):
+def report_value(ctx, name, r, n, xval, mode, expected, got, modes=MODES):
     def still(c, xv):
-        f = fails_py(c, n, xv)
+        f = fails_py(c, n, xv, modes)
         return f is not None and f[0] == "value"
     small, xv = shrink(r, n, xval, still)
     if small is not r:
-        f = fails_py(small, n, xv)
+        f = fails_py(small, n, xv, modes)
         if f is not None and f[0] == "value":
             r, xval, mode, expected, got = small, xv, f[1], f[2], f[3]
     ctx.fail("input", name, witness={"n": n, "recipe": describe(r), "mode": mode, "x": xval,
-                                     "inputs": sorted(free(r))},
+                                     "inputs": sorted(free(r)), "modes": list(modes)},
              expected=str(expected)[:600], got=str(got)[:600],
              python=py_program(r, n, mode, xval) +
              f"# expected table over {sorted(free(r))} (row-major): {[str(x) for x in expected][:64]}\nFAILS = True\n")
@@ -865,7 +923,67 @@ def enum_stream(ctx):
     check_cases(ctx, cases, "enum")
 
 
-def check_cases(ctx, cases, stream):
+def fusion_stream(ctx):
+    """Binders created by FUSION of nested binders.  Body x[i,j,k] * z[a] * y[b] with z, y free real-array
+    inputs (so eager cannot collapse it); 2-3 nested Reduce / Contraction levels with binder names from the
+    pool (normalize / eager / apply_optimizer fuse them into ONE binder over a set that mixes an already
+    mangled name with a fresh user name); THEN a substitution for a remaining free input of a value whose
+    free name is any pool name (colliding with the inner/outer binder names); real inputs bound last."""
+    rng = ctx.rng
+    quick = ctx.tier == "quick"
+    cases = []
+    for n in ([2] if quick else [2, 3]):
+        g = Gen(rng, n)
+        x = g.leaf("real", list(POOL))
+
+        def level(kind, cur, v, w):
+            if kind == "R":
+                return ("reduce", "add", cur, v)
+            return ("contr", "add", "mul", v, cur, g.leaf("real", [v] if v == w else [v, w]))
+        for a, b in itertools.permutations(POOL, 2):
+            f = ("binary", "mul", ("binary", "mul", x, ("rget", "z", a)), ("rget", "y", b))
+            for k1, k2 in itertools.product("RC", "RC"):
+                for v1, v2 in itertools.permutations(POOL, 2):
+                    for w in POOL:
+                        h = level(k2, level(k1, f, v1, w), v2, w)
+                        fr = sorted(free(h))
+                        if not fr:
+                            continue
+                        key = fr[0]
+                        vals = [("bvar", u) for u in POOL]
+                        if not quick or rng.random() < 0.3:
+                            vals.append(g.leaf("bint", [rng.choice(POOL)]))
+                        for val in vals:
+                            cases.append((n, ("subs", h, key, val)))
+                        if rng.random() < (0.25 if quick else 1.0):
+                            cases.append((n, h))
+        # three levels (sampled): the third binder re-uses a pool name freed by a Contraction's extra factor
+        for _ in range(150 if quick else 1500):
+            a, b = rng.sample(POOL, 2)
+            f = ("binary", "mul", ("binary", "mul", x, ("rget", "z", a)), ("rget", "y", b))
+            cur = f
+            ok = True
+            for _lvl in range(3):
+                fr = sorted(free(cur))
+                if not fr:
+                    ok = False
+                    break
+                cur = level(rng.choice("RC"), cur, rng.choice(fr), rng.choice(POOL))
+            fr = sorted(free(cur))
+            if ok and fr:
+                cases.append((n, ("subs", cur, rng.choice(fr), ("bvar", rng.choice(POOL)))))
+    if quick and len(cases) > 450:
+        cases = rng.sample(cases, 450)
+    out = []
+    for n, r in cases:
+        ins = sorted(free(r))
+        if len(ins) <= 3:
+            out.append((n, r, None, ins))
+    ctx.count("fusion:cases", len(out))
+    check_cases(ctx, out, "fusion", modes=MODES_OPT)
+
+
+def check_cases(ctx, cases, stream, modes=MODES):
     reqs = []
     for n, r, xval, ins in cases:
         r2 = rename_binders(r)
@@ -919,7 +1037,7 @@ def check_cases(ctx, cases, stream):
         except DECLINE + (RecursionError,) as e:
             ctx.count(f"reflect-construction-declined:{type(e).__name__}")
             syn = None
-        nm = check_names(syn, free(r), {"x"} if has_indep(r) else set()) if syn is not None else None
+        nm = check_names(syn, free(r), real_names(r)) if syn is not None else None
         if nm:
             ctx.fail("input", f"C05.{nm[0]}", witness={"n": n, "recipe": describe(r)}, expected="bound ∩ inputs = ∅, "
                      "binders marked, inputs = user-level free names", got=nm[1],
@@ -939,8 +1057,17 @@ def check_cases(ctx, cases, stream):
         bad = None
         got_value = False
         outcome = {}
-        for mode in MODES:
-            st, val = run_mode(r, n, mode, xval)
+        for mode in modes:
+            st, val, pre = run_mode_full(r, n, mode, xval)
+            if st == "value" and isinstance(pre, Funsor) and not isinstance(pre, (Tensor, Number)):
+                # the term as rewritten by this interpretation (fused reductions, …) and still lazy because of
+                # free real inputs: every binder in it must be marked, none may be an input
+                nm2 = check_names(pre, free(r), real_names(r), exact_inputs=False)
+                ctx.count(f"{mode}:rewritten-term-walked")
+                if nm2:
+                    bad = (mode, "bound ∩ inputs = ∅, all binders marked, inputs ⊆ user-level free names",
+                           f"{nm2[0]}: {nm2[1]}")
+                    break
             outcome[mode] = st if st != "value" else ("value" if isinstance(val, (Tensor, Number)) else "lazy")
             if st != "value":
                 ctx.count(f"{mode}:declined:{val}")
@@ -959,7 +1086,7 @@ def check_cases(ctx, cases, stream):
                 bad = (mode, model, tab)
                 break
         if bad:
-            report_value(ctx, "C05.value-ne-denote", r, n, xval, *bad)
+            report_value(ctx, "C05.value-ne-denote", r, n, xval, *bad, modes=modes)
             continue
         # --- renaming invariance of the implementation (fresh distinct binder names)
         r2 = rename_binders(r)
@@ -1238,11 +1365,14 @@ def correspond(ctx):
                 "(hash-consed shared binders) and bint-valued terms substituted into themselves; each built under eager, "
                 "lazy/reflect/normalize + reinterpret and decided on its whole input space against Lean `denote` of the "
                 "user-level expression, a Python evaluator and the fresh-binder-names variant; reflected syntax walked "
-                "for bound∩inputs=∅ / markers / inputs. Non-trivial = binder depth >= 2, some value returned, and a binder "
+                "for bound∩inputs=∅ / markers / inputs; plus the fusion family (x[i,j,k]*z[a]*y[b] with free real arrays, 2-3 "
+                "nested Reduce/Contraction levels fused by eager/normalize/apply_optimizer, then a colliding-name "
+                "substitution; the rewritten lazy term of every mode is walked for unmarked binders). Non-trivial = binder depth >= 2, some value returned, and a binder "
                 "name that is also free somewhere in the expression or bound twice; distinct by full content." %
                 (3 if quick else 4))
     enum_stream(ctx)
-    clean_stream(ctx, 1200 if quick else 12000)
+    fusion_stream(ctx)
+    clean_stream(ctx, 1000 if quick else 12000)
     extras_stream(ctx, 80 if quick else 600)
     for name, fid, stream in (("shared-binder", KF, shared_binder_stream), ("approximate", KF2, approximate_stream)):
         try:
